@@ -153,6 +153,12 @@ class C06(object):
                 regs[0]['var'] = 'Z'
             return {'kind': 'registered', 'regs': regs, 'vseed': rng.getrandbits(32), 'twice': False, 'late_var': late}
         ops_ = gen_history(rng)
+        if idx % 6 == 0:
+            # product flows excluded from income under exactly the spelling they are registered with (factors NOT in alphabetical order)
+            ops_ = ([{'op': 'exclude', 'sector': 'S', 'name': 'W*C'}, {'op': 'exclude', 'sector': 'S', 'name': 'X2*X1'}] + ops_ +
+                    [{'op': 'flow', 'term': 'W*C', 'sign': 1.0, 'core': 'W*C', 'eqn': None, 'is_income': True, 'desc': None},
+                     {'op': 'flow', 'term': '-X2*X1', 'sign': -1.0, 'core': 'X2*X1', 'eqn': None, 'is_income': True, 'desc': 'a product'},
+                     {'op': 'flow', 'term': '+C*W', 'sign': 1.0, 'core': 'C*W', 'eqn': None, 'is_income': True, 'desc': None}])
         if idx % 6 == 5:
             # exclusions registered for a sector with the SAME short code in another country of the model: they are that
             # sector's business only
